@@ -389,9 +389,41 @@ func c09RunSeq(c *core.Ctx, seq []c09Shape) {
 			break
 		}
 	}
+	if c.Rng.Intn(3) == 0 {
+		// The result of a query holds every matching rule, not only rewrites:
+		// rules without the modifier (blocking, exception, important ones) are
+		// not rewrite shapes and have no say in which rewrites are effective.
+		var mixed []*rules.NetworkRule
+		var names []string
+		for i := 0; i <= len(objs); i++ {
+			for c.Rng.Intn(3) == 0 {
+				t := c09Bystanders[c.Rng.Intn(len(c09Bystanders))]
+				b, err := rules.NewNetworkRule(t, 1)
+				if err != nil {
+					panic(err)
+				}
+				mixed = append(mixed, b)
+				names = append(names, t)
+			}
+			if i < len(objs) {
+				mixed = append(mixed, objs[i])
+			}
+		}
+		if len(names) > 0 {
+			res2 := &urlfilter.DNSResult{NetworkRules: mixed}
+			c.Event("results_with_rules_that_are_not_rewrites", 1)
+			c09Judge(c, "DNSResult(next to "+strings.Join(names, " ")+")", seq, res2.DNSRewrites(), objs)
+		}
+	}
 	if c.WantSample() && len(seq) >= 3 && c.Rng.Intn(50) == 0 {
 		c.Sample(map[string]any{"sequence": c09Names(seq), "effective": util.Texts(got)})
 	}
+}
+
+// c09Bystanders are rules that match example.com and carry no $dnsrewrite.
+var c09Bystanders = []string{
+	"||example.com^", "@@||example.com^", "||example.com^$important", "@@||example.com^$important", "@@||example.com^$important,dnstype=A",
+	"example.com", "@@||example.com^$dnstype=A", "|example.com^$important,denyallow=other.org", "@@example.com$important,client=~nobody",
 }
 
 // c09RunEngine pushes a sequence through a DNS engine; the order of
@@ -409,8 +441,17 @@ func c09RunEngine(c *core.Ctx, seq []c09Shape) {
 		byText[s.text()] = s
 		lines = append(lines, s.text())
 	}
-	eng := urlfilter.NewDNSEngine(util.StorageSplit(c.Rng, lines))
-	res, _ := eng.MatchRequest(&urlfilter.DNSRequest{Hostname: "example.com"})
+	stored := lines
+	if c.Rng.Intn(3) == 0 {
+		stored = append([]string(nil), lines...)
+		for i, n := 0, 1+c.Rng.Intn(3); i < n; i++ {
+			at := c.Rng.Intn(len(stored) + 1)
+			stored = append(stored[:at], append([]string{c09Bystanders[c.Rng.Intn(len(c09Bystanders))]}, stored[at:]...)...)
+		}
+		c.Event("engine_lists_with_rules_that_are_not_rewrites", 1)
+	}
+	eng := urlfilter.NewDNSEngine(util.StorageSplit(c.Rng, stored))
+	res, _ := eng.MatchRequest(&urlfilter.DNSRequest{Hostname: "example.com", DNSType: 1})
 	all := res.DNSRewritesAll()
 	if len(all) != len(lines) {
 		c.Violation("engine-lost-rewrite", nil, lines, "engine returned %d of %d rewrite rules for example.com: %v", len(all), len(lines), util.Texts(all))
@@ -436,6 +477,7 @@ func init() {
 		Level: "exploration",
 		Rule: "all sequences of length 0..4 over an 18-symbol alphabet of rewrite shapes (A short/full, CNAME short/full, RCODE, MX, HTTPS, NS (a type without value parser) x important x exception, empty exceptions) " +
 			"[thorough: also length 5..6 over 7 symbols and length 5 over 16], plus PRNG-sampled sequences of length 5..12 (one in four: 13..52) over all ~90 shape variants, each fed as fresh rule objects to DNSResult.DNSRewrites and, sampled, through DNSEngine.MatchRequest; " +
+			"one sequence in three is also evaluated next to matching rules that are not rewrites (plain, exception, important, $dnstype, $client ones), directly and through the engine; " +
 			"oracle = reference filter of DNSRewritesAll() compared as sequences of rule texts (and object identity); non-trivial = sequence with at least one exception and one rewrite; distinct by sequence",
 		Assumptions: []string{
 			"a keyword NOERROR exception parses to the empty value; it is not generated as an exception (declared don't-care)",
